@@ -219,6 +219,20 @@ void harness_realloc(void)
 			VERIF_ASSERT(!buddy_is_live(&pool[wa], wj), "the old block is released when the content moves");
 		if(wi < req)
 			VERIF_ASSERT(q[wi] == wv, "the common prefix of the content is preserved");
+		{ /* the returned range is recorded in its arena as ONE live block of the new size class
+		   * (this is what the checkpoint traversal copies and what full_ckpt_size must account for) */
+			bool rec = false;
+			unsigned char cexp = 0;
+			while((1U << cexp) < cls)
+				cexp++;
+			for(unsigned k = 0; k < NA; k++)
+				if(slot_used[k] && q >= pool[k].base_mem && q + cls <= pool[k].base_mem + ARENA) {
+					unsigned o = (unsigned)(q - pool[k].base_mem);
+					unsigned n = ((o + ARENA) >> cexp) - 1;
+					rec = o % cls == 0 && expo[n] == cexp && buddy_is_live(&pool[k], n);
+				}
+			VERIF_ASSERT(rec, "the reallocated block is recorded as one live block of the new size class (tree and accounted size agree)");
+		}
 		unsigned newa = arena_mallocs ? HDR : 0;
 		VERIF_ASSERT(lp.mm_state.full_ckpt_size == (cls == oldsz ? size0 : size0 + cls - oldsz + newa), "the accounted checkpoint size changes by exactly new block - old block (+ header of a new arena)");
 	}
